@@ -1,2 +1,77 @@
-(* C09 placeholder *)
-From Prov Require Import Interp.
+(* C09 — flattened(), update() and add_bundle() conserve records.
+   Statements only; proofs in theories/WorldProofs.v, InterpProofs.v. *)
+From Coq Require Import String List Arith.
+From Prov Require Import Str Sexp Tables Nsm NsmProofs Values Record RecordProofs World Interp WorldProofs InterpProofs.
+Import ListNotations.
+Open Scope string_scope.
+
+(* re-creation in the target scope (add_record, the step shared by flattened, update
+   and add_bundle): the copy has the same kind and the same identifier URI — under
+   any clash of prefixes or default namespaces in the target — is appended at the
+   end, and no existing record of the target is touched *)
+Theorem C09_add_record : forall par ft b r0 q b' r,
+  InvU (bns b) -> rid r0 = Some q -> add_record par ft b r0 = (b', OK r) ->
+  rkind r = rkind r0 /\ option_map qn_uri (rid r) = Some (qn_uri q) /\
+  brecs b' = (brecs b ++ [r])%list /\ InvU (bns b').
+Proof. exact add_record_spec. Qed.
+Print Assumptions C09_add_record.
+
+(* flattened(): a bundle-free new document with exactly as many records as the
+   document and all its bundles together; the source is untouched (C12_frame) *)
+Theorem C09_flattened_count : forall w d dd h,
+  get_doc w d = Some dd -> dbundles dd <> [] ->
+  snd (step w (OFlattened d)) = RHandle h ->
+  exists nd, get_doc (fst (step w (OFlattened d))) h = Some nd /\ dbundles nd = [] /\
+    length (brecs (dmain nd)) =
+    length (brecs (dmain dd)) + length (flat_map (fun kb => brecs (snd kb)) (dbundles dd)).
+Proof. exact flattened_count. Qed.
+Print Assumptions C09_flattened_count.
+
+(* update(): the other document is left unchanged (when it is another document) *)
+Theorem C09_update_other_unchanged : forall w c o,
+  cref_doc o < length (wdocs w) -> cref_doc o <> cref_doc c ->
+  nth_error (wdocs (fst (step w (OUpdate c o)))) (cref_doc o) = nth_error (wdocs w) (cref_doc o).
+Proof.
+  intros w c o L N. apply step_frame; [exact L|]. cbn [target]. congruence.
+Qed.
+Print Assumptions C09_update_other_unchanged.
+
+(* add_bundle: every refusal leaves the whole world as it was *)
+Theorem C09_add_bundle_refusal_unchanged : forall w d src x order e,
+  snd (step w (OAddBundleDoc d src x order)) = RRaise e ->
+  fst (step w (OAddBundleDoc d src x order)) = w.
+Proof. exact add_bundle_refusal_unchanged. Qed.
+Print Assumptions C09_add_bundle_refusal_unchanged.
+
+Theorem C09_add_bundle_refuses_nested : forall w d src x order dd sd,
+  get_doc w d = Some dd -> get_doc w src = Some sd -> dbundles sd <> [] ->
+  step w (OAddBundleDoc d src x order) = (w, RRaise EProv).
+Proof. exact add_bundle_refuses_nested. Qed.
+
+Theorem C09_add_bundle_refuses_missing_id : forall w d src order,
+  snd (step w (OAddBundleDoc d src None order)) <> RUnit.
+Proof. exact add_bundle_refuses_missing_id. Qed.
+
+(* full statement not yet proved: the re-created record carries the same attribute
+   name URIs and the same strict values (needs idempotence of normalisation on
+   stored values and C03a for value names); it is checked by the correspondence run
+   and the multiset oracle of this check *)
+Definition C09_full_statement : Prop :=
+  forall par ft b r0 b' r, InvU (bns b) -> Normal r0 -> add_record par ft b r0 = (b', OK r) ->
+    map (fun kv => (qn_uri (fst kv), snd kv)) (rattrs r) = map (fun kv => (qn_uri (fst kv), snd kv)) (rattrs r0).
+
+(* non-vacuity *)
+Definition ex_w : world :=
+  wrun [] [ONewDoc; OAddNs (CDoc 0) "ex" "http://e/"; ONewBundle 0 (Some (NStr "ex:b"));
+           ONewRecord (CDoc 0) "Entity" (Some (NStr "ex:a")) [];
+           ONewRecord (CBun 0 0) "Agent" (Some (NQn (mkQn (mkNs "ex" "http://other/") "g"))) []].
+Example C09_flatten_computes :
+  match step ex_w (OFlattened 0) with
+  | (w', RHandle 1) =>
+      match get_doc w' 1 with
+      | Some nd => map (fun r => (rkind r, option_map qn_uri (rid r))) (brecs (dmain nd))
+      | None => []
+      end
+  | _ => []
+  end = [("Entity", Some "http://e/a"); ("Agent", Some "http://other/g")].
+Proof. vm_compute. reflexivity. Qed.
